@@ -15,7 +15,12 @@ with common.Lock():
     common.gen_lakefile()
     ok, msg = common.regen()
     print("regen", "ok" if ok else "FAILED " + msg)
-# optional per-area generators (e.g. schema facts) run inside their own checks
+# per-area generators that Props/Driver modules import (regenerated again by their own checks)
+try:
+    from checks import c14
+    print("schema facts", c14.regen_schema())
+except Exception as e:
+    print("schema facts FAILED", e)
 mods = sorted(os.path.splitext(os.path.basename(p))[0] for p in glob.glob("lean/F3/Props/*.lean"))
 for m in mods:
     rc, out = common.lake_build(["F3.Props." + m])
